@@ -404,7 +404,11 @@ func c09ConcurrentRun(c *runner.Ctx) {
 								msg = "error: " + err.Error()
 							} else {
 								full := sg.X.DocsOf(f, ts[0])
-								q := navReq{sg: sg, dict: d, field: f, term: ts[gr.Intn(len(ts))], except: genExcept(gr, n, full, 0),
+								term := ts[gr.Intn(len(ts))]
+								if gr.Intn(4) == 0 { // a term the field does not have: every reader of every segment gets the library's shared empty objects, which the next lookup hands back as prealloc
+									term = "absent\x00term"
+								}
+								q := navReq{sg: sg, dict: d, field: f, term: term, except: genExcept(gr, n, full, 0),
 									fl: [3]bool{gr.Intn(2) == 0, gr.Intn(2) == 0, gr.Intn(2) == 0}, stopAt: 1, sig: "concurrent:wrong-result:postings:"}
 								if gr.Intn(2) == 0 {
 									q.prePL, q.prePI = prevPL, prevPI
